@@ -120,7 +120,7 @@ ASSUMPTIONS = [
 TRUSTED_BASE = ['vf/hail_fake_backend.py (no execution)', 'schema model + IR walk in vf/monitors/c36.py', 'vf/hail_relational_rules.py (transcription of the engine\'s relational typing rules)',
                 'vf/shims (decorator, parsimonious, orjson; pandas/pyspark inert)']
 SHARDS = {'quick': 4, 'thorough': 16}
-TIMEOUT = {'quick': 600, 'thorough': 3000}
+TIMEOUT = {'quick': 900, 'thorough': 3000}
 FLOORS = {
     'contract_expr_rule': 20000, 'contract_ref_binder': 5000, 'contract_node_in_env': 20000, 'contract_table_wrapper': 1000,
     'contract_table_model': 500, 'contract_matrix_wrapper': 500, 'contract_matrix_model': 300, 'contract_literal_typecheck': 1000,
